@@ -574,6 +574,16 @@ func mutationCases(r *rand.Rand, n int) []hostile {
 		for k := 0; k < 1+r.Intn(2); k++ {
 			q = mutate(r, q, 0).(M)
 		}
+		// the documented exclusion holds for mutated requests as well: a level coefficient in (0, 1e-3) describes a series
+		// that is finite but astronomically long (1e-320 from 0 advances in denormal steps), so whether its request is
+		// "answered" would be decided by a time budget - such a coefficient is put back to a plain one
+		if mp, ok := q["methodParameters"].(map[string]interface{}); ok {
+			if lp, ok := mp["params"].(map[string]interface{}); ok {
+				if cf, isNum := lp["coefficient"].(float64); isNum && cf > 0 && cf < 1e-3 {
+					lp["coefficient"] = 0.25
+				}
+			}
+		}
 		b, err := json.Marshal(q)
 		if err != nil {
 			continue
